@@ -540,24 +540,18 @@ impl<E: Effect, R: CommandReceiver<E>, S: EventSender<E>> Worker<E, R, S> {
         awaiter: ProcessId,
         results: ProcessResultsMap,
     ) -> Result<(), EnvironmentError> {
-        let mut has_any_result = false;
-
         // Process each result and update awaiter
         for (awaited, result_opt) in results {
             if let Some(result) = result_opt {
                 self.notify_result(awaiter, awaited, result)?;
-                has_any_result = true;
             }
         }
 
-        // If no actual results were provided, manually wake up the awaiter
-        // notify_result handles this when there are results
-        if !has_any_result {
-            // Remove from waiting and add to queue. Only a select is woken: this answer may be
-            // a late one for a select that already completed through another source, and the
-            // awaiter may by now be parked waiting for a spawn reply.
-            self.executor.wake_selecting(awaiter);
-        }
+        // An await answer - even one without results, or whose only results concern a target the
+        // awaiter no longer waits for - lets a parked select start evaluating its sources. Only a
+        // select is woken: the answer may be a late one for a select that already completed
+        // through another source, and the awaiter may by now be parked waiting for a spawn reply.
+        self.executor.wake_selecting(awaiter);
 
         Ok(())
     }
